@@ -1258,6 +1258,13 @@ def _malformed(ctx, reqs3, pending3, only_idx=None):
         def fkey(method, f):
             return (method, tuple(sorted((k, str(v)) for k, v in f.items() if v is not None)))
         before = {}
+
+        def contexts_of(rp):
+            """what the report-level accessors answer (they compare concept names, too)"""
+            oc_ = _call(lambda: [(_code(c_[0].value), len(c_)) for c_ in rp.get_observer_contexts()])
+            sc_ = _call(lambda: len(rp.get_subject_contexts()))
+            return (oc_[1] if oc_[0] == 'ok' else ('err', oc_[1]), sc_[1] if sc_[0] == 'ok' else ('err', sc_[1]))
+        ctx_before = contexts_of(rep) if what in METAMORPHIC else None
         if what in METAMORPHIC or what in RULE:
             # the answers of the untouched report (this also lets the report remember whatever it remembers between queries)
             for method in ('planar', 'volumetric', 'image'):
@@ -1279,6 +1286,15 @@ def _malformed(ctx, reqs3, pending3, only_idx=None):
             _perturb(r, conts[pos], what, pool)
             if tpl and 'ContentTemplateSequence' not in conts[pos]:
                 conts[pos].ContentTemplateSequence = tpl_seq        # the shape (with / without template id) is part of the case
+            if what == 'versioned-names':
+                # what a tool that states the coding scheme version writes: the version on EVERY concept name of the tree -
+                # root, observation context, procedure, image library, containers, group containers, every child
+                def version_all(ds_):
+                    if 'ConceptNameCodeSequence' in ds_:
+                        ds_.ConceptNameCodeSequence[0].CodingSchemeVersion = '2.0'
+                    for x_ in ds_.get('ContentSequence', []):
+                        version_all(x_)
+                version_all(rep[0])
         model_groups = [_real_items(c) for c in conts]
         for method in ('planar', 'volumetric', 'image'):
             for f in filters_of(method):
@@ -1343,12 +1359,18 @@ def _malformed(ctx, reqs3, pending3, only_idx=None):
                 reqs3.append(('queryItems', {'method': method, 'groups': model_groups,
                                              'filters': {k: (list(v) if isinstance(v, tuple) else v) for k, v in f.items()}}))
                 pending3.append((case, ('ok', got) if ok else ('err', res[1])))
-        if what == 'legacy-names':
+        if what in METAMORPHIC:
+            ctx_now = contexts_of(rep)
+            if ctx_now != ctx_before:
+                ctx.fail(dict(case0, method='contexts'), {'what': 'get_observer_contexts / get_subject_contexts answer differently after a change '
+                                                                  'that names the same concepts', 'before': ctx_before, 'after': ctx_now},
+                         site=f'contexts/metamorphic-{what}')
+        if what in ('legacy-names', 'versioned-names'):
             # the same report written into a document and parsed back: still the answers of the untouched report
             rd = _call(_as_document, {'groups': groups, 'pool': pool, 'rep': rep})
             if rd[0] != 'ok' or type(rd[1].content).__name__ != 'MeasurementReport':
-                ctx.fail(case0, f'report with legacy concept names cannot be written and parsed back as a MeasurementReport: '
-                                f'{rd[2] if rd[0] != "ok" else type(rd[1].content).__name__}', site='srread/legacy-names')
+                ctx.fail(case0, f'report with {what} cannot be written and parsed back as a MeasurementReport: '
+                                f'{rd[2] if rd[0] != "ok" else type(rd[1].content).__name__}', site=f'srread/{what}')
             else:
                 for method in ('planar', 'volumetric', 'image'):
                     for f in filters_of(method):
@@ -1357,9 +1379,14 @@ def _malformed(ctx, reqs3, pending3, only_idx=None):
                         ctx.case(path='malformed-reread', method=method, malformation=what, outcome='ok' if res[0] == 'ok' else res[1])
                         if now != before[fkey(method, f)]:
                             ctx.fail(dict(case0, method=method, filters={k: v for k, v in f.items() if v is not None}, path='reread'),
-                                     {'what': 'the answer of the re-read report with legacy SNOMED-RT concept names differs from the answer '
+                                     {'what': f'the answer of the re-read report ({what}) differs from the answer '
                                               'of the report as constructed', 'before': before[fkey(method, f)], 'after': now},
-                                     site=f'{method}/metamorphic-legacy-names-reread')
+                                     site=f'{method}/metamorphic-{what}-reread')
+                ctx_rr = contexts_of(rd[1].content)
+                if ctx_rr != ctx_before:
+                    ctx.fail(dict(case0, method='contexts', path='reread'),
+                             {'what': 'get_observer_contexts / get_subject_contexts of the re-read report differ', 'before': ctx_before,
+                              'after': ctx_rr}, site=f'contexts/metamorphic-{what}-reread')
     if only_idx is None:
         ctx.exhaustive.append(f'all {len(ROI_SHAPES) * len(MALFORMED)} (ROI group shape x malformation) combinations'
                               + (' x both positions' if len(idxs) == len(combos) else
